@@ -136,3 +136,38 @@ pub fn k_replay_registration() {
 }
 #[cfg(kani)]
 pub fn k_replay_registration() {}
+
+/// native witness for the set_text line-splitting spec: (n, n-1 separator kinds, n "line is empty" flags);
+/// the text "l0<sep>l1..." with lines "1" or "" must give n slots, Some("1") resp. None, in order
+#[cfg(not(kani))]
+pub fn k_replay_set_text_lines() {
+    let n: u8 = vany();
+    vassume(n >= 1 && n <= 6);
+    let mut seps = [0u8; 6];
+    let mut i = 1usize;
+    while i < n as usize { seps[i] = vany(); i += 1; }
+    let mut empty = [false; 6];
+    i = 0;
+    while i < n as usize { empty[i] = vany(); i += 1; }
+    let mut text = String::new();
+    i = 0;
+    while i < n as usize {
+        if i > 0 { text.push_str(if seps[i] == 1 { "\r\n" } else { "\n" }); }
+        if !empty[i] { text.push_str("1"); }
+        i += 1;
+    }
+    let calc = crate::SmartCalc::default();
+    let r = calc.execute("en", text);
+    assert!(r.status);
+    assert!(r.lines.len() == n as usize);
+    i = 0;
+    while i < n as usize {
+        match &r.lines[i] {
+            Some(x) => assert!(!empty[i] && x.result.as_ref().map(|v| v.output.as_str()) == Ok("1")),
+            None => assert!(empty[i]),
+        }
+        i += 1;
+    }
+}
+#[cfg(kani)]
+pub fn k_replay_set_text_lines() {}
